@@ -136,6 +136,17 @@ def _sanitised(f, comp):
                 for c in walk_no_nested(f.node):
                     if isinstance(c, ast.Compare) and len(c.ops) == 1 and isinstance(c.ops[0], (ast.In, ast.NotIn)) and c.comparators[0] is x:
                         ok = True
+                    # iterated by a loop that only accumulates commutatively (update / add / |=) and never leaves early
+                    if isinstance(c, ast.For) and c.iter is x and _commutative_body(c.body):
+                        ok = True
+                    if isinstance(c, ast.Call) and any(a is x for a in c.args):
+                        fn = c.func
+                        nm = fn.id if isinstance(fn, ast.Name) else (fn.attr if isinstance(fn, ast.Attribute) else None)
+                        if nm in ('set', 'frozenset', 'sorted', 'any', 'all', 'union', 'sum', 'len', 'max', 'min', 'update', 'intersection', 'difference'):
+                            ok = True
+                    if isinstance(c, ast.Call) and any(isinstance(a, ast.Starred) and a.value is x for a in c.args) and isinstance(c.func, ast.Attribute) \
+                            and c.func.attr in ('union', 'intersection', 'update'):
+                        ok = True
                 if not ok:
                     members_only = False
             if uses and members_only:
@@ -147,6 +158,20 @@ def _sanitised(f, comp):
             if name in ('set', 'frozenset', 'sorted', 'any', 'all', 'union', 'sum', 'len', 'max', 'min', 'update', 'remove_duplicates'):
                 return True
     return False
+
+
+def _commutative_body(stmts):
+    for st in stmts:
+        if isinstance(st, ast.Expr) and isinstance(st.value, ast.Call) and isinstance(st.value.func, ast.Attribute) and st.value.func.attr in ('update', 'add', 'discard', 'difference_update', 'intersection_update'):
+            continue
+        if isinstance(st, ast.AugAssign) and isinstance(st.op, (ast.BitOr, ast.BitAnd, ast.Add)) and not isinstance(st.target, ast.Subscript):
+            continue
+        if isinstance(st, ast.If) and _commutative_body(st.body) and _commutative_body(st.orelse):
+            continue
+        if isinstance(st, ast.Pass):
+            continue
+        return False
+    return True
 
 
 def _list_is_bag(ctx, f, name):
